@@ -1468,3 +1468,10 @@ func init() {
 		Assumptions: valAssumptions,
 	})
 }
+
+// rule addenda (rounds 9-12): what the evidence says about the coverage of a run
+func init() {
+	if p := registry["C04"]; p != nil {
+		p.Rule += " Expected decimals are installed into and read from the Decimal's field directly (no method of the type under test on the oracle side). Package leg: pkg rows — a format and 2..3 rows of that format with different values, each prepared with LastPkg(the package before) as the channel does, all rows shown after the last one was read."
+	}
+}
